@@ -113,7 +113,7 @@ func (w *world) pDo(pw *c.ProxyWorld, target string, xhr bool, cookies ...*http.
 	for _, ck := range cookies {
 		req.AddCookie(ck)
 	}
-	return pw.Do(req)
+	return wireOf(pw, pw.Handler).roundTrip(req)
 }
 
 // startFlow runs the real OAuthStart and returns the sealed state and the CSRF cookie.
@@ -149,6 +149,11 @@ func (w *world) proxySession(pw *c.ProxyWorld, g *hostile, email string, refresh
 }
 
 var proxySites = []pSite{
+	{name: "callback: provider error parameter (oauthproxy.go:411)", want: 403,
+		run: func(w *world, g *hostile, xhr bool) (*httptest.ResponseRecorder, *errData) {
+			msg := nonEmpty(g.next())
+			return w.pDo(w.proxyW, "/oauth2/callback?error="+qe(msg)+"&state="+qe(g.next()), xhr), &errData{Code: 403, Title: "Permission Denied", Message: msg}
+		}},
 	{name: "callback: ParseForm error (oauthproxy.go:404)", want: 500,
 		run: func(w *world, g *hostile, xhr bool) (*httptest.ResponseRecorder, *errData) {
 			q := "code=a&x=%" + string("<\"'>~!"[g.i%6]) + rawBytes(g.next(), 2)
@@ -245,11 +250,11 @@ var proxySites = []pSite{
 		}},
 }
 
-func (w *world) sameCase(svc, site int, name string, hl []string, real, benign string) {
+func (w *world) sameCase(svc, site int, name string, hl []string, ctype, real, benign string, vars, varNames []string) {
 	w.cases = append(w.cases, c.Case{
-		Coq: fmt.Sprintf("CSame %d %d\n %s\n %s", svc, site, bs(real), recipe(real, benign)),
+		Coq: fmt.Sprintf("CSame %d %d %s\n %s\n %s %s", svc, site, ctCoq(ctype), bs(real), recipe(real, benign), c.List(vars)),
 		JSON: map[string]interface{}{"kind": "call-site", "service": []string{"sso-proxy", "sso-auth"}[svc], "site": name,
-			"hostile_inputs": quoteAll(hl), "body_len": len(real)}})
+			"hostile_inputs": quoteAll(hl), "content_type": ctype, "body_len": len(real), "combinations": varNames}})
 	w.nSame++
 }
 
@@ -261,33 +266,68 @@ func quoteAll(l []string) []string {
 	return q
 }
 
-func (w *world) proxySiteCase(idx int, hl []string, must bool) {
+func ctOf(rec *httptest.ResponseRecorder) string { return rec.Header().Get("Content-Type") }
+
+func (w *world) proxySiteCase(idx int, hl []string, must bool, variants []vmode) {
 	s := proxySites[idx]
+	curTS = time.Now().Unix()
+	hh := hostileHeaders(idx+len(hl[0]), hl[len(hl)-1])
+	defer func() { curMode, curTS = rmode{}, 0 }()
 	fail := func(what string, code int) {
 		if must {
 			c.Must(fmt.Errorf("proxy call site %q not reached (%s, status %d)", s.name, what, code))
 		}
 	}
-	if !s.xhrOnly {
-		rec, data := s.run(w, &hostile{l: hl}, false)
-		recB, _ := s.run(w, &hostile{l: benignList}, false)
+	run := func(hostileRun bool, v vmode) (*httptest.ResponseRecorder, *errData) {
+		if hostileRun {
+			curMode = rmode{hasAccept: v.hasAccept, accept: v.accept, xhr: v.xhr, hdr: hh}
+			return s.run(w, &hostile{l: hl}, false)
+		}
+		curMode = rmode{hasAccept: v.hasAccept, accept: v.accept, xhr: v.xhr, hdr: benignHeaders}
+		return s.run(w, &hostile{l: benignList}, false)
+	}
+	if s.xhrOnly {
+		rec, _ := run(true, vmode{xhr: true})
+		recB, _ := run(false, vmode{xhr: true})
 		if rec == nil || recB == nil {
 			fail("request refused by net/http", 0)
-		} else if rec.Code != s.want || recB.Code != s.want {
-			fail("html", rec.Code)
-		} else if s.static {
-			w.sameCase(0, idx, s.name, hl, rec.Body.String(), recB.Body.String())
+		} else if rec.Code != s.want {
+			fail("xhr", rec.Code)
 		} else {
-			w.pageCaseB(0, "error.html", *data, rec.Body.String(), recB.Body.String(), 1, s.name)
+			w.jsonCase(0, strings.Join(hl, "|"), rec.Body.String(), ctOf(rec), recB.Body.String())
 		}
+		return
 	}
-	recX, _ := s.run(w, &hostile{l: hl}, true)
-	if recX == nil {
+	rec, data := run(true, vmode{})
+	recB, _ := run(false, vmode{})
+	if rec == nil || recB == nil {
 		fail("request refused by net/http", 0)
-	} else if recX.Code != s.want {
-		fail("xhr", recX.Code)
+		return
+	}
+	if rec.Code != s.want || recB.Code != s.want {
+		fail("html", rec.Code)
+		return
+	}
+	real, benign := rec.Body.String(), recB.Body.String()
+	var vars, names []string
+	for _, v := range variants {
+		r, _ := run(true, v)
+		rb, _ := run(false, v)
+		if r == nil || rb == nil || r.Code != s.want || rb.Code != s.want {
+			fail("combination "+v.String(), 0)
+			continue
+		}
+		mode := 0
+		if v.xhr { // ErrorPage: isXHR -> XHRError
+			mode = 1
+		}
+		vars = append(vars, varCoq(mode, ctOf(r), r.Body.String(), real, rb.Body.String(), benign))
+		names = append(names, v.String())
+	}
+	if s.static {
+		w.sameCase(0, idx, s.name, hl, ctOf(rec), real, benign, vars, names)
 	} else {
-		w.jsonCase(0, strings.Join(hl, "|"), recX.Body.String(), recX.Header().Get("Content-Type"))
+		w.pageCaseB(0, "error.html", *data, ctOf(rec), real, benign, 1, s.name, vars, names)
 	}
 }
 
@@ -338,6 +378,7 @@ type aReq struct {
 	form           url.Values
 	hdr            map[string]string
 	cookies        []*http.Cookie
+	host           string
 }
 
 func (a *authWorld) serve(r aReq, asJSON bool) *httptest.ResponseRecorder {
@@ -369,6 +410,9 @@ func (a *authWorld) serve(r aReq, asJSON bool) *httptest.ResponseRecorder {
 	}
 	for _, ck := range r.cookies {
 		req.AddCookie(ck)
+	}
+	if r.host != "" {
+		req.Host = r.host
 	}
 	return a.do(req)
 }
@@ -416,7 +460,7 @@ func hostileRedirect(g *hostile) string {
 }
 
 func signedQuery(redirect string) string {
-	ts := time.Now().Unix()
+	ts := nowTS()
 	return "redirect_uri=" + qe(redirect) + "&sig=" + qe(sign(redirect, ts)) + "&ts=" + fmt.Sprint(ts)
 }
 
@@ -554,7 +598,7 @@ var authSites = []aSite{
 			a.resetTP()
 			a.tp.RevokeError = errors.New(g.next())
 			redirect := hostileRedirect(g)
-			ts := time.Now().Unix()
+			ts := nowTS()
 			form := url.Values{"redirect_uri": {redirect}, "sig": {sign(redirect, ts)}, "ts": {"+" + fmt.Sprint(ts)}}
 			return a, a.serve(aReq{method: "POST", target: "/sign_out", form: form, cookies: []*http.Cookie{a.sessionCookie(g, g.next(), time.Hour, time.Hour)}}, j)
 		}},
@@ -670,9 +714,20 @@ func messageOf(data interface{}) (string, bool) {
 	return "", false
 }
 
-func (w *world) authSiteCase(idx int, hl []string, must bool) {
+func (w *world) authSiteCase(idx int, hl []string, must bool, variants []vmode) {
 	s := authSites[idx]
-	a, rec := s.run(w, &hostile{l: hl}, false)
+	curTS = time.Now().Unix()
+	hh := hostileHeaders(idx+len(hl[0]), hl[len(hl)-1])
+	defer func() { curMode, curTS = rmode{}, 0 }()
+	run := func(hostileRun bool, v vmode) (*authWorld, *httptest.ResponseRecorder) {
+		if hostileRun {
+			curMode = rmode{hasAccept: v.hasAccept, accept: v.accept, xhr: v.xhr, hdr: hh}
+			return s.run(w, &hostile{l: hl}, false)
+		}
+		curMode = rmode{hasAccept: v.hasAccept, accept: v.accept, xhr: v.xhr, hdr: benignHeaders}
+		return s.run(w, &hostile{l: benignList}, false)
+	}
+	a, rec := run(true, vmode{})
 	if rec == nil {
 		if must {
 			c.Must(fmt.Errorf("auth call site %q: request refused by net/http", s.name))
@@ -685,50 +740,65 @@ func (w *world) authSiteCase(idx int, hl []string, must bool) {
 		}
 		return
 	}
-	name, data, body := a.lastN, a.last, rec.Body.String()
+	name, data, real := a.lastN, a.last, rec.Body.String()
 	// the same call site with benign inputs
 	benign := ""
-	ab, recB := s.run(w, &hostile{l: benignList}, false)
+	ab, recB := run(false, vmode{})
 	if recB != nil && ab.last != nil && ab.lastN == name && recB.Code == rec.Code {
 		benign = recB.Body.String()
 	} else {
 		benign = w.render(1, name, benignOf(data))
 	}
-	w.pageCaseB(1, name, data, body, benign, 1, s.name)
-	if name != "error.html" {
-		return
+	var vars, names []string
+	for _, v := range variants {
+		_, r := run(true, v)
+		_, rb := run(false, v)
+		if r == nil || rb == nil || r.Code != rec.Code || rb.Code != rec.Code {
+			if must {
+				c.Must(fmt.Errorf("auth call site %q: combination %s not reached", s.name, v))
+			}
+			continue
+		}
+		mode := 0
+		if name == "error.html" && v.hasAccept && v.accept == "application/json" { // ErrorResponse (error.go:48)
+			mode = 1
+		}
+		vars = append(vars, varCoq(mode, ctOf(r), r.Body.String(), real, rb.Body.String(), benign))
+		names = append(names, v.String())
 	}
-	msg, ok := messageOf(data)
-	if !ok {
-		return
-	}
-	_, recJ := s.run(w, &hostile{l: hl}, true)
-	if recJ == nil {
-		return
-	}
-	// time-dependent inputs aside, the JSON branch of ErrorResponse carries the same message
-	w.jsonCase(1, msg, recJ.Body.String(), recJ.Header().Get("Content-Type"))
+	w.pageCaseB(1, name, data, ctOf(rec), real, benign, 1, s.name, vars, names)
 }
 
 // siteCorpus: every call site with each classic hostile list; the expected status must be reached.
+// The first list (messages that begin with a tag) is observed under EVERY (Accept, XHR)
+// combination, the others under four of them in rotation.
 func (w *world) siteCorpus() {
 	for i := range proxySites {
-		for _, hl := range classicHostile {
-			w.proxySiteCase(i, hl, true)
+		for k, hl := range classicHostile {
+			vs := someVariants(i+k, 4)
+			if k == 0 {
+				vs = allVariants()
+			}
+			w.proxySiteCase(i, hl, true, vs)
 		}
 	}
 	for i := range authSites {
-		for _, hl := range classicHostile {
-			w.authSiteCase(i, hl, true)
+		for k, hl := range classicHostile {
+			vs := someVariants(i+k+1, 4)
+			if k == 0 {
+				vs = allVariants()
+			}
+			w.authSiteCase(i, hl, true, vs)
 		}
 	}
 }
 
 func (w *world) siteRandom(r *c.Rng) {
 	hl := genHostileList(r)
+	vs := someVariants(r.Intn(1000), 3)
 	if r.Intn(3) == 0 {
-		w.proxySiteCase(r.Intn(len(proxySites)), hl, false)
+		w.proxySiteCase(r.Intn(len(proxySites)), hl, false, vs)
 	} else {
-		w.authSiteCase(r.Intn(len(authSites)), hl, false)
+		w.authSiteCase(r.Intn(len(authSites)), hl, false, vs)
 	}
 }
